@@ -72,7 +72,7 @@ Definition model_diff (c : c10case) : list N :=
         than read_str's MAX_STR_LEN window;
    11 = (A-24) some CloseUpvalue (emitted by scope_end) has no trace entry.
    The disassembler must list the same instruction starts as the decoder (part of code 2). *)
-Definition is_close_upvalue (i : instr) : bool := match i with ICloseUpvalue => true | _ => false end.
+Definition is_close_upvalue (i : instr) : bool := match i with ICloseUpvalue _ => true | _ => false end.
 Definition disasm_ok (B : compiled) (disasm : option (list N)) : bool :=
   match disasm, decode (p_bytecode B) with
   | None, _ => true
